@@ -68,7 +68,11 @@ func (ctx *_OpContextType) checkArgImm(xlen int, as abi.As, arg *abi.AsArgument,
 				return fmt.Errorf("%s: %w", AsString(as, ""), err)
 			}
 		case 64:
-			if err := immFitsRange(int64(arg.Imm), _ImmRanges_Shamt64); err != nil {
+			shamtRange := _ImmRanges_Shamt64
+			if ctx.Opcode == _OpBase_OP_IMM_32 {
+				shamtRange = _ImmRanges_Shamt32 // slliw/srliw/sraiw shift a 32-bit value
+			}
+			if err := immFitsRange(int64(arg.Imm), shamtRange); err != nil {
 				return fmt.Errorf("%s: %w", AsString(as, ""), err)
 			}
 		default:
